@@ -215,7 +215,14 @@ impl LinkRelay<()> {
 }
 pub enum LinkFrame { Attach(Attach), Detach(Detach), Other }
 
+/// ghost trace of LinkRelay::abandon_pending_deliveries (`&self`: the unsettled map sits behind an Arc<RwLock>): the relays whose waiters have been released
+pub type ReleaseLog = Ghost<Set<LinkRelay<OutputHandle>>>;
 impl LinkRelay<OutputHandle> {
+    /// LinkRelay::abandon_pending_deliveries (unit LINK [C14.session-stop.every-waiter-released]) with the call recorded (R9)
+    #[verifier::external_body]
+    pub fn abandon_pending_deliveries_l(&self, log: &mut ReleaseLog)
+        ensures final(log)@ == old(log)@.insert(*self),
+    { unimplemented!() }
     #[verifier::external_body]
     pub fn send(&mut self, frame: LinkFrame) -> (r: Result<(), ChanSendError>)
         ensures final(self).oh() == old(self).oh(), final(self).rsm() == old(self).rsm(), (*final(self) is Sender) == (*old(self) is Sender),
@@ -778,6 +785,45 @@ impl Session {
         &&& f.body->Flow_0.next_outgoing_id == noi
         &&& f.body->Flow_0.outgoing_window == self.outgoing_window
     }
+
+//@@ fn file=fe2o3-amqp/src/session/mod.rs impl=`impl endpoint::Session for Session` name=abandon_pending_deliveries
+//@@ addparam log: &mut ReleaseLog
+//@@ subst `relay.abandon_pending_deliveries()` => `relay.abandon_pending_deliveries_l(log)` rule=R9
+//@@ spec
+    ensures
+        forall|k: InputHandle| old(self).link_by_input_handle@.contains_key(k) ==> final(log)@.contains(#[trigger] old(self).link_by_input_handle@[k]),   // [C14.session-stop.every-sending-relay-reached] when the session stops the waiters of EVERY link attached to it are released -- no attached link is skipped
+        forall|n: String| old(self).link_by_name@.contains_key(n) && old(self).link_by_name@[n] is Some ==> final(log)@.contains(#[trigger] old(self).link_by_name@[n]->Some_0),   // [C14.session-stop.every-attaching-relay-reached] ... nor one whose attach has not been answered yet
+        *final(self) == *old(self),
+//@@ loop 0
+        invariant
+            *self == *old(self), __im0 <= self.link_by_input_handle.order().len(),
+            forall|j: int| 0 <= j < __im0 ==> log@.contains(#[trigger] self.link_by_input_handle@[self.link_by_input_handle.order()[j]]),
+        decreases self.link_by_input_handle.order().len() - __im0,
+//@@ loop 1
+        invariant
+            *self == *old(self), __im1 <= self.link_by_name.order().len(),
+            forall|k: InputHandle| self.link_by_input_handle@.contains_key(k) ==> log@.contains(#[trigger] self.link_by_input_handle@[k]),
+            forall|j: int| 0 <= j < __im1 && self.link_by_name@[self.link_by_name.order()[j]] is Some ==> log@.contains(#[trigger] self.link_by_name@[self.link_by_name.order()[j]]->Some_0),
+        decreases self.link_by_name.order().len() - __im1,
+//@@ stmt 1
+        proof {
+            let ord = self.link_by_input_handle.order();
+            assert forall|k: InputHandle| self.link_by_input_handle@.contains_key(k) implies log@.contains(#[trigger] self.link_by_input_handle@[k]) by {
+                assert(ord.contains(k));
+                let j = choose|j: int| 0 <= j < ord.len() && ord[j] == k;
+                assert(log@.contains(self.link_by_input_handle@[ord[j]]));
+            }
+        }
+//@@ exit
+        proof {
+            let ord = self.link_by_name.order();
+            assert forall|n: String| self.link_by_name@.contains_key(n) && self.link_by_name@[n] is Some implies log@.contains(#[trigger] self.link_by_name@[n]->Some_0) by {
+                assert(ord.contains(n));
+                let j = choose|j: int| 0 <= j < ord.len() && ord[j] == n;
+                assert(log@.contains(self.link_by_name@[ord[j]]->Some_0));
+            }
+        }
+//@@ end
 
 //@@ fn file=fe2o3-amqp/src/session/mod.rs impl=`impl endpoint::Session for Session` name=on_outgoing_attach
 //@@ spec
